@@ -240,3 +240,27 @@ Proof.
     + injection H as <- <-. reflexivity.
     + injection H as <- <-. reflexivity.
 Qed.
+
+(* the provided nth(k) on an iterator in any state: k+1 steps, each of them safe *)
+Lemma tagiter_nth_step_safe p h m b blen :
+  iter_ok h m b blen -> forall k nxt, nxt mod 8 = 0 ->
+  is_fault (fst (tagiter_nth_step p h m b blen nxt k)) = false /\ snd (tagiter_nth_step p h m b blen nxt k) mod 8 = 0.
+Proof.
+  intros Hok k; induction k as [|k IH]; intros nxt Hn; cbn [tagiter_nth_step];
+    destruct (tagiter_step p h m b blen nxt) as [x n'] eqn:E;
+    pose proof (tagiter_step_safe p h m b blen nxt Hok Hn) as [S1 S2]; rewrite E in S1, S2; cbn [fst snd] in S1, S2.
+  - destruct x as [[t|]| | |]; cbn [fst snd]; auto.
+  - destruct x as [[t|]| | |]; cbn [fst snd]; auto.
+Qed.
+
+(* on a live iterator whose steps all succeed, nth_step agrees with the pure nth *)
+Lemma tagiter_nth_step_val p h m b blen : forall k nxt o n',
+  tagiter_nth p h m b blen nxt k = Val (o, n') -> tagiter_nth_step p h m b blen nxt k = (Val o, n').
+Proof.
+  induction k as [|k IH]; intros nxt o n' H; cbn [tagiter_nth tagiter_nth_step] in *; unfold tagiter_step;
+    destruct (tagiter_next p h m b blen nxt) as [[[t|] n1]|e| |f] eqn:E; try discriminate.
+  - injection H as <- <-. reflexivity.
+  - injection H as <- <-. reflexivity.
+  - apply IH. exact H.
+  - injection H as <- <-. reflexivity.
+Qed.
